@@ -268,7 +268,7 @@ class Lexer:
         """Move the pointer back one character."""
         if self.pos <= self.start:
             # Cant backup beyond start.
-            raise LiquidSyntaxError("unexpected end of expression", token=None)
+            self.error("unexpected end of expression")
         self.pos -= 1
 
     def peek(self) -> str:
